@@ -263,3 +263,65 @@ Theorem from_text_shift k t gs : groups t = Ok gs -> Forall (fun g => live g <> 
 Proof.
   intros Eg Hl. unfold from_text. rewrite groups_shift, Eg. cbn [rmap bind]. now apply from_groups_shift.
 Qed.
+
+(* ---------- how ranges compose through merge and fold ---------- *)
+
+Definition mm (acc x : N * N) : N * N := (N.min (fst acc) (fst x), N.max (snd acc) (snd x)).
+
+Lemma fold_mm_spec rs : forall acc,
+  let r := fold_left mm rs acc in
+  (forall x, In x (acc :: rs) -> fst r <= fst x /\ snd x <= snd r) /\
+  (exists x, In x (acc :: rs) /\ fst r = fst x) /\ (exists y, In y (acc :: rs) /\ snd r = snd y).
+Proof.
+  induction rs as [|r0 rs IH]; intros acc; cbv zeta.
+  - cbn [fold_left]. split; [intros x [<-|[]]; split; lia|]. split; exists acc; (split; [now left|reflexivity]).
+  - cbn [fold_left]. destruct (IH (mm acc r0)) as (H1 & (x & Hx & Ex) & (y & Hy & Ey)). cbv zeta in *.
+    set (R := fold_left mm rs (mm acc r0)) in *. split; [|split].
+    + intros z [<-|[<-|Hz]].
+      * destruct (H1 (mm acc r0) (or_introl eq_refl)) as [A B]. unfold mm in A, B. cbn [fst snd] in A, B. split; lia.
+      * destruct (H1 (mm acc r0) (or_introl eq_refl)) as [A B]. unfold mm in A, B. cbn [fst snd] in A, B. split; lia.
+      * apply H1. now right.
+    + destruct Hx as [<-|Hx].
+      * unfold mm in Ex. cbn [fst] in Ex. destruct (N.min_spec (fst acc) (fst r0)) as [[_ E]|[_ E]]; rewrite E in Ex;
+          [exists acc; split; [now left|exact Ex]|exists r0; split; [right; now left|exact Ex]].
+      * exists x. split; [right; now right|exact Ex].
+    + destruct Hy as [<-|Hy].
+      * unfold mm in Ey. cbn [snd] in Ey. destruct (N.max_spec (snd acc) (snd r0)) as [[_ E]|[_ E]]; rewrite E in Ey;
+          [exists r0; split; [right; now left|exact Ey]|exists acc; split; [now left|exact Ey]].
+      * exists y. split; [right; now right|exact Ey].
+Qed.
+
+Definition para_ranges (run : list para) : list (N * N) :=
+  flat_map (fun p => match p_lines p with [] => [] | _ :: _ => [first_last p] end) run.
+
+(* the merged unknown paragraph spans the merged paragraphs: its start is the smallest of their
+   starts, its end the largest of their ends, and both are attained *)
+Theorem merge_range_spans run r0 rs : para_ranges run = r0 :: rs ->
+  exists r, p_lines (merge_run run) = [(lit "unknown", r)] /\
+    (forall x, In x (r0 :: rs) -> fst r <= fst x /\ snd x <= snd r) /\
+    (exists x, In x (r0 :: rs) /\ fst r = fst x) /\ (exists y, In y (r0 :: rs) /\ snd r = snd y).
+Proof.
+  intros E. unfold merge_run. cbn [p_lines]. fold (para_ranges run). rewrite E. eexists. split; [reflexivity|].
+  apply (fold_mm_spec rs r0).
+Qed.
+
+(* the folded license: it starts where the License field started (or, when that field recorded no
+   line, where the unknown paragraph starts) and ends where the unknown paragraph ends *)
+Theorem fold_range p1 p2 :
+  p_lines (fold_pair p1 p2) =
+  dict_put (lit "license")
+    (match dict_get (lit "license") (p_lines p1) with Some (s, _) => s | None => fst (first_last p2) end, snd (first_last p2))
+    (p_lines p1).
+Proof. unfold fold_pair. destruct (first_last p2) as [f2 e2]. reflexivity. Qed.
+
+(* the span of a paragraph covers the ranges of all its fields *)
+Theorem first_last_spans p : p_lines p <> [] ->
+  forall kv, In kv (p_lines p) -> fst (first_last p) <= fst (snd kv) /\ snd (snd kv) <= snd (first_last p).
+Proof.
+  unfold first_last. destruct (p_lines p) as [|[n0 [s e]] rest]; [contradiction|]. intros _ kv Hin.
+  assert (G : forall l acc, fold_left (fun acc0 (kv0 : str * (N * N)) => (N.min (fst acc0) (fst (snd kv0)), N.max (snd acc0) (snd (snd kv0)))) l acc =
+                            fold_left mm (map snd l) acc).
+  { induction l as [|x l IHl]; intros acc; [reflexivity|]. cbn [fold_left map]. apply IHl. }
+  rewrite G. destruct (fold_mm_spec (map snd rest) (s, e)) as (H1 & _). cbv zeta in H1.
+  destruct Hin as [<-|Hin]; [apply (H1 (s, e)); now left|]. apply (H1 (snd kv)). right. now apply in_map.
+Qed.
